@@ -262,16 +262,18 @@ func (b *buffer) Peek(n int) (p []byte, err error) {
 		if n == 0 {
 			return p, nil
 		}
-		return p, io.EOF
+		return p[:0], io.EOF
 	}
 	n, err = b.memBuf.read(peekOffset, p)
 	peekOffset += int64(n)
 
 	if err == io.EOF && len(p) > n && b.fileBuf != nil {
 		// Memory buffer exhausted, read from file
-		_, err = b.fileBuf.read(peekOffset-b.memBuf.size(), p[n:])
+		var m int
+		m, err = b.fileBuf.read(peekOffset-b.memBuf.size(), p[n:])
+		n += m
 	}
-	return p, err
+	return p[:n], err
 }
 
 // ReadAtOffset reads the next len(p) bytes from the buffer starting at off or until the buffer
